@@ -123,6 +123,11 @@ func (propC08) Gen(r *Rand) *Plan {
 		tp := TaskPlan{}
 		for i, n := 0, r.Range(1, 6); i < n; i++ {
 
+			if r.Bool(0.05) {
+				// someone else customises a function collection of its own: remove an entry by position, by name, or clear it
+				tp.Ops = append(tp.Ops, Op{Op: "foreign", I: r.Intn(37), J: r.Intn(3), S: r.Pick(c08Names)})
+				continue
+			}
 			switch r.Weighted([]int{4, 3, 3, 4, 2, 8, 1}) {
 			case 0:
 				tp.Ops = append(tp.Ops, Op{Op: "now", S: flipCase(r, "Now"), I: r.Intn(2)})
@@ -331,6 +336,36 @@ func c08Run(p *Plan, x *Ctx, out *Outcome) {
 							}
 						}
 					}()
+				case "foreign":
+					func() {
+						defer func() {
+							if pv := recover(); pv != nil {
+								r.panicV = pv
+							}
+							r.done = true
+						}()
+						other := functions.NewDefaultFunctionCollection()
+						switch o.J % 3 {
+						case 0:
+							if other.Length() > 0 {
+								other.Remove(o.I % other.Length())
+							}
+						case 1:
+							other.RemoveByName(o.S)
+						default:
+							other.Clear()
+						}
+						// every default name must still be found in this task's collection and in a new one
+						r.found = true
+						fresh := functions.NewDefaultFunctionCollection()
+						for _, n := range c08Names {
+							if funcs.FindByName(n) == nil || fresh.FindByName(strings.ToUpper(n)) == nil {
+								r.found = false
+								r.extraErr = append(r.extraErr, fmt.Errorf("%s", n))
+							}
+						}
+						r.res = variants.VariantFromInteger(fresh.Length())
+					}()
 				case "panicfn":
 					call(r, "boom", nil, o.I == 1)
 				default:
@@ -385,6 +420,15 @@ func c08Run(p *Plan, x *Ctx, out *Outcome) {
 			}
 			if sb, ok := r.panicV.(StepBudgetExceeded); ok {
 				out.Violate("liveness", "C08/step-budget", "%s: %v", where, sb)
+				continue
+			}
+			if o.Op == "foreign" {
+				out.Probes["foreign_collection_customised"]++
+				if r.panicV != nil {
+					out.Violate("seam-contract", "C08/panic/foreign-collection", "%s: panicked: %v", where, r.panicV)
+				} else if !r.found || (r.res != nil && r.res.AsInteger() != len(c08Names)) {
+					out.Violate("lookup", "C08/not-found-by-name", "%s: after another default collection was modified, default functions %v are missing from this task's or from a new collection (a new collection holds %v entries)", where, r.extraErr, FromVariant(r.res))
+				}
 				continue
 			}
 			if !r.found {
